@@ -533,11 +533,12 @@ def twin_part(prop, k, casefile, outfile, rundir, res, known, seed):
             texts.append(t)
             plans[cfg["id"] + "~18"] = [(cfg, items, plan, t)]
         elif prop == "C19":
-            r = twins.build_c19(cfg, items, rnd)
-            if r is None:
-                continue
-            texts.append(r[0])
-            plans[cfg["id"] + "~19"] = [(cfg, items, r[1], r[0])]
+            for variant in range(3):
+                r = twins.build_c19(cfg, items, rnd, variant)
+                if r is None:
+                    continue
+                texts.append(r[0])
+                plans[r[0].split()[1]] = [(cfg, items, r[1], r[0])]
         elif prop == "C20":
             for (t, plan) in twins.build_c20(cfg, items):
                 texts.append(t)
@@ -788,6 +789,17 @@ def deeper_search(prop, res, rundir):
         for sd in range(res["seed"] + 7, res["seed"] + 12):
             f, _ = gen_cases(k, sd, 400, 40, rundir)
             r = run_kind(k, f, rundir)
+            if prop in ("C18", "C19", "C20"):
+                tmp = new_res(prop, res["tier"], sd)
+                try:
+                    twin_part(prop, k, f, r["outfile"], rundir, tmp, known, sd)
+                except Exception:
+                    pass
+                if tmp["violations"]:
+                    v = tmp["violations"][0]
+                    text = next((c for c in split_cases(f) if case_id(c) == v["case"]), None)
+                    return write_replay(prop, v["kind"], dict(property=prop, kind=v["kind"], what="found by the deeper search (twin run) after a correspondence/obligation break",
+                                                              messages=[x["msg"] for x in tmp["violations"][:5]], case=text, twin_case=v.get("twin"), seed=sd))
             try:
                 for (cfg, items, endl) in monitors.parse_cases(f, r["outfile"]):
                     vs = [v for v in monitors.run_monitors(cfg, items, endl, props={prop}) if not known_match(prop, cfg, v.msg, known)]
